@@ -26,8 +26,8 @@ fn relc(z: C, r: f64) -> Q {
 }
 
 fn approx(q: Q, z: C) -> R {
-    if !finite(z) {
-        return RV::Unspec("U3: non-finite complex result");
+    if !finite(z) || z.norm() > 1e300 {
+        return RV::Unspec("U3: non-finite complex result (or within rounding of overflow)");
     }
     match q {
         Q::Exact => RV::Val(z, relc(z, 1e-9)),
